@@ -108,6 +108,9 @@ var BaseStrategies = []*StratEntity{
 			return st.NewSmmaStrategy()
 		}
 		s := sorted(c)
+		if (c[0]+c[1])%3 == 0 {
+			s = c // the two lines are synchronised to the slower one whichever it is: "short" may be the longer period
+		}
 		return st.NewSmmaStrategyWith(s[0], s[1])
 	}},
 	{Name: "trend.Trima", NCfg: 2, Make: func(c []int) strategy.Strategy {
